@@ -38,6 +38,8 @@ func init() {
 		"(reflect.Value).CanInterface":    ext۰reflect۰Value۰CanInterface,
 		"(reflect.Value).Elem":            ext۰reflect۰Value۰Elem,
 		"(reflect.Value).Field":           ext۰reflect۰Value۰Field,
+		"(reflect.Value).FieldByName":     ext۰reflect۰Value۰FieldByName,
+		"reflect.Indirect":                ext۰reflect۰Indirect,
 		"(reflect.Value).Float":           ext۰reflect۰Value۰Float,
 		"(reflect.Value).Index":           ext۰reflect۰Value۰Index,
 		"(reflect.Value).Int":             ext۰reflect۰Value۰Int,
